@@ -120,6 +120,31 @@ var c15ops = []c15op{
 	}},
 	{"VerifyGood", nil, func() string { f := fixtures(); return dig(ed25519.Verify(f.pub, f.msg, f.sigPure)) }},
 	{"VerifyBad", nil, func() string { f := fixtures(); return dig(ed25519.Verify(f.pub, []byte("other"), f.sigPure)) }},
+	{"VerifyBadSigSameKeyMsg", nil, func() string {
+		f := fixtures()
+		s := append([]byte{}, f.sigPure...)
+		s[40] ^= 1
+		return dig(ed25519.Verify(f.pub, f.msg, s))
+	}},
+	{"VerifyKeySignBitFlipped", nil, func() string {
+		f := fixtures()
+		k := append([]byte{}, f.pub...)
+		k[31] ^= 0x80
+		return dig(ed25519.Verify(k, f.msg, f.sigPure))
+	}},
+	{"VerifyMsgLastByteChanged", nil, func() string {
+		f := fixtures()
+		m := append([]byte{}, f.msg...)
+		m[len(m)-1] ^= 1
+		return dig(ed25519.Verify(f.pub, m, f.sigPure))
+	}},
+	{"VerifyCtxGoodOtherKey", nil, func() string {
+		f := fixtures()
+		sd := bytes.Repeat([]byte{0x43}, 32)
+		k := stded.NewKeyFromSeed(sd)
+		sig, _ := k.Sign(nil, f.msg, &stded.Options{Context: "ctx"})
+		return dig(ed25519.VerifyWithOptions(ed25519.PublicKey(k[32:]), f.msg, sig, &ed25519.Options{Context: "ctx"}))
+	}},
 	{"VerifyZip215SmallOrder", nil, func() string {
 		f := fixtures()
 		return dig(ed25519.VerifyWithOptions(f.soKey, f.msg, f.soSig, &ed25519.Options{ZIP215Verify: true}), ed25519.VerifyWithOptions(f.soKey, f.msg, f.soSig, &ed25519.Options{}))
@@ -380,16 +405,31 @@ func c15scenarios(thorough bool) []scenario {
 		}
 	}
 	// triples: one call each, chosen to mix batch / sign / x25519 / keygen
-	tr := [][3]int{{0, 3, 6}, {6, 7, 9}, {9, 9, 9}, {0, 0, 0}, {13, 14, 15}, {11, 12, 0}, {6, 13, 3}, {7, 8, 10}, {1, 2, 5}, {16, 17, 18}, {9, 13, 0}, {6, 6, 6}}
+	ix := func(name string) int {
+		for i, o := range c15ops {
+			if o.name == name {
+				return i
+			}
+		}
+		panic("unknown op " + name)
+	}
+	tr := [][3]string{{"SignPure", "VerifyGood", "Batch4Good"}, {"Batch4Good", "Batch4OneBad", "Batch65"}, {"Batch65", "Batch65", "Batch65"}, {"SignPure", "SignPure", "SignPure"},
+		{"X25519Base", "X25519Generic", "X25519LowOrder"}, {"GenerateKey", "NewKeyFromSeed", "SignPure"}, {"Batch4Good", "X25519Base", "VerifyGood"}, {"Batch4OneBad", "Batch5Good", "Batch3"},
+		{"SignCtx", "SignPh", "VerifyZip215SmallOrder"}, {"EdPublicKeyToX25519", "EdPrivateKeyToX25519", "PrivateKeyEqual"}, {"Batch65", "X25519Base", "SignPure"}, {"Batch4Good", "Batch4Good", "Batch4Good"}}
 	if thorough {
-		tr = append(tr, [][3]int{{0, 1, 2}, {3, 4, 5}, {6, 8, 10}, {7, 9, 11}, {12, 13, 14}, {15, 16, 17}, {18, 0, 6}, {9, 3, 13}, {2, 7, 14}, {11, 11, 11}, {13, 13, 13}, {4, 9, 16}}...)
+		tr = append(tr, [][3]string{{"SignPure", "SignCtx", "SignPh"}, {"VerifyGood", "VerifyBad", "VerifyBadSigSameKeyMsg"}, {"Batch4Good", "Batch5Good", "Batch3"}, {"Batch4OneBad", "Batch65", "GenerateKey"},
+			{"NewKeyFromSeed", "X25519Base", "X25519Generic"}, {"X25519LowOrder", "EdPublicKeyToX25519", "EdPrivateKeyToX25519"}, {"PrivateKeyEqual", "SignPure", "Batch4Good"}, {"Batch65", "VerifyGood", "X25519Base"},
+			{"SignPh", "Batch4OneBad", "X25519Generic"}, {"GenerateKey", "GenerateKey", "GenerateKey"}, {"X25519Base", "X25519Base", "X25519Base"}, {"VerifyKeySignBitFlipped", "VerifyGood", "VerifyMsgLastByteChanged"}}...)
 	}
 	for _, t := range tr {
-		out = append(out, scenario{[][]int{{t[0]}, {t[1]}, {t[2]}}})
+		out = append(out, scenario{[][]int{{ix(t[0])}, {ix(t[1])}, {ix(t[2])}}})
 	}
 	// two threads x two calls
-	for _, q := range [][4]int{{6, 9, 7, 8}, {9, 6, 6, 9}, {13, 14, 14, 13}, {4, 3, 7, 6}, {15, 14, 15, 13}, {0, 3, 1, 5}, {11, 12, 12, 11}, {10, 9, 9, 10}, {7, 6, 4, 3}, {2, 0, 8, 9}, {16, 13, 17, 14}, {18, 0, 18, 3}} {
-		out = append(out, scenario{[][]int{{q[0], q[1]}, {q[2], q[3]}}})
+	for _, q := range [][4]string{{"Batch4Good", "Batch65", "Batch4OneBad", "Batch5Good"}, {"Batch65", "Batch4Good", "Batch4Good", "Batch65"}, {"X25519Base", "X25519Generic", "X25519Generic", "X25519Base"},
+		{"VerifyBad", "VerifyGood", "Batch4OneBad", "Batch4Good"}, {"X25519LowOrder", "X25519Generic", "X25519LowOrder", "X25519Base"}, {"SignPure", "VerifyGood", "SignCtx", "VerifyZip215SmallOrder"},
+		{"GenerateKey", "NewKeyFromSeed", "NewKeyFromSeed", "GenerateKey"}, {"Batch3", "Batch65", "Batch65", "Batch3"}, {"Batch4OneBad", "Batch4Good", "VerifyBad", "VerifyGood"},
+		{"SignPh", "SignPure", "Batch5Good", "Batch65"}, {"EdPublicKeyToX25519", "X25519Base", "EdPrivateKeyToX25519", "X25519Generic"}, {"VerifyGood", "VerifyBadSigSameKeyMsg", "VerifyKeySignBitFlipped", "VerifyGood"}} {
+		out = append(out, scenario{[][]int{{ix(q[0]), ix(q[1])}, {ix(q[2]), ix(q[3])}}})
 	}
 	return out
 }
